@@ -64,6 +64,12 @@ func main() {
 		for _, k := range moduleFuncDecls(w.Roots) {
 			fmt.Println(k)
 		}
+		for _, k := range moduleStructFields(w.Roots) {
+			fmt.Println(k)
+		}
+		for _, k := range moduleConsts(w.Roots) {
+			fmt.Println(k)
+		}
 		return
 	}
 	if *debugFn != "" {
